@@ -299,9 +299,11 @@ func (r *run) do(a Action, where string, from *comp) (delivered bool) {
 			return false
 		}
 		r.log(event{Kind: "wseq", Gen: from.gen, Name: from.name, Info: where + " " + a.String()})
+		base := r.seqPending.Load()
 		r.seqPending.Add(int64(len(a.Seq)))
-		first := make(chan struct{})
+		var senderID atomic.Int64
 		go func() {
+			senderID.Store(goroutineID())
 			for i, k := range a.Seq {
 				var err error
 				if k == "error" {
@@ -319,23 +321,22 @@ func (r *run) do(a Action, where string, from *comp) (delivered bool) {
 					r.mustReturn.Store(true)
 				}
 				r.seqPending.Add(-1)
-				if i == 0 {
-					close(first)
-				}
 			}
 		}()
-		// the callback goes on once the first notification sits in the (empty) channel
-		for i := 0; ; i++ {
-			select {
-			case <-first:
-				return true
-			default:
-			}
+		// The callback (the run loop's goroutine) goes on only when the first notification sits in the (empty)
+		// channel and the sender is parked in the send of the next one — or everything has been delivered. So
+		// two notifications are pending while the loop is busy, and none is ever started after the loop may
+		// have consumed a watch error.
+		for i := 0; r.seqPending.Load() > base; i++ {
 			if r.abandon.Load() {
-				return true
+				break
+			}
+			if id := senderID.Load(); id > 0 && r.seqNotified.Load() > 0 && parkedInSend(id) {
+				break
 			}
 			pause(i)
 		}
+		return true
 	case "fatal":
 		n := a.N
 		if n < 1 {
@@ -392,6 +393,19 @@ func (r *run) dump() string {
 		}
 		r.dumpBuf = make([]byte, 2*len(r.dumpBuf))
 	}
+}
+
+// parkedInSend: the goroutine sits in a channel send inside confmap.(*Resolver).onChange.
+func parkedInSend(id int64) bool {
+	buf := make([]byte, 1<<20)
+	n := runtime.Stack(buf, true)
+	head := fmt.Sprintf("goroutine %d [chan send", id)
+	for _, g := range strings.Split(string(buf[:n]), "\n\n") {
+		if strings.HasPrefix(g, head) && strings.Contains(g, "confmap.(*Resolver).onChange") {
+			return true
+		}
+	}
+	return false
 }
 
 func (r *run) blockedInAsyncSend() bool {
